@@ -35,6 +35,8 @@ func main() {
 	cpuprof := flag.String("cpuprofile", "", "write CPU profile")
 	memprof := flag.String("memprofile", "", "write alloc profile")
 	flag.Parse()
+	os.Setenv("PATH", "/opt/veriftools/go1.26.8/bin:"+os.Getenv("PATH"))
+	os.Setenv("GOTOOLCHAIN", "local")
 	if *memprof != "" {
 		runtime.MemProfileRate = 64 << 10
 		defer func() {
